@@ -387,8 +387,8 @@ fn run(ctx: &mut Ctx) {
         });
     }
     // ---------------- region level
-    ctx.bound("region_level", "regions [deviating tag][conformant neighbour][end] and [neighbour][deviating tag][end] for every budget-1 tag image above (size alphabet thinned to the values around each 8-byte boundary in the quick tier) and two neighbours; total-size words cutting the last tag with an end tag written at the cut; flush-right and flush-left, fills A/B; program = load, Debug, all 22 getters with their batteries, tag walk, module walk, deprecated ELF getter, forwards and in reverse order");
-    let neighbours = [bi::sample(bi::MEMINFO, 5, 0), bi::sample(bi::CMDLINE, 5, 3)];
+    ctx.bound("region_level", "regions [deviating tag][conformant neighbour][end] and [neighbour][deviating tag][end] for every budget-1 tag image above (size alphabet thinned to the values around each 8-byte boundary in the quick tier) and three neighbours (16, 12 and 316 bytes); total-size words cutting the last tag with an end tag written at the cut; flush-right and flush-left, fills A/B; program = load, Debug, all 22 getters with their batteries, tag walk, module walk, deprecated ELF getter, forwards and in reverse order");
+    let neighbours = [bi::sample(bi::MEMINFO, 5, 0), bi::sample(bi::CMDLINE, 5, 3), bi::sample(bi::SMBIOS, 5, 300)];
     for base in &all {
         enumerate(1, |ch| {
             let (img, size, devs) = apply(base, ch);
